@@ -486,6 +486,13 @@ func (g *guarded) guardsIntact() bool {
 	return true
 }
 
+// scribble overwrites the whole buffer (argument and guards).
+func (g *guarded) scribble() {
+	for i := range g.buf {
+		g.buf[i] ^= 0x5a
+	}
+}
+
 func (g *guarded) dataIntact() bool {
 	for _, b := range g.slice() {
 		if b != g.fill {
@@ -522,6 +529,9 @@ func (x *exec) apply(cur *tracked, p op, step int) *tracked {
 		if !g.dataIntact() || !g.guardsIntact() {
 			x.fail("merlin/"+name+"/caller-memory", "%s modified the caller's buffer (data intact: %v, guard bytes around it intact: %v)", p, g.dataIntact(), g.guardsIntact())
 		}
+		// (T11/T12) the buffer is the caller's again: it is overwritten at once, so a transcript that kept a
+		// reference into it instead of absorbing a copy goes wrong in every later state / output comparison
+		g.scribble()
 		refApply(cur, p)
 		cur.h.ops = append(cur.h.ops, p)
 		x.observe(cur, name)
@@ -535,6 +545,7 @@ func (x *exec) apply(cur *tracked, p op, step int) *tracked {
 		want := refApply(cur, p)
 		cur.h.ops = append(cur.h.ops, p)
 		x.output(cur, p, dest, want)
+		g.scribble() // the bytes handed out belong to the caller: overwriting them must not reach the transcript
 		x.observe(cur, name)
 	case kRead:
 		g := newGuarded(p.n, 0xa5)
@@ -549,6 +560,7 @@ func (x *exec) apply(cur *tracked, p op, step int) *tracked {
 		want := refApply(cur, p)
 		cur.h.ops = append(cur.h.ops, p)
 		x.output(cur, p, dest, want)
+		g.scribble()
 		x.observe(cur, name)
 	case kCloneA, kCloneB:
 		c := &tracked{typ: tTranscript, t: cur.t.Clone(), h: hist{cur.h.create, append([]op{}, cur.h.ops...)}}
